@@ -102,7 +102,7 @@ func c18Class(f string) string {
 func init() {
 	fw.Register(&fw.Prop{
 		ID: "C18",
-		Rule: "every format string of length <= L over the symbols % s f v d - 0 3 x, times 15 argument lists, plus a width sweep across the 65536 limit; 6 programs whose printf runs the same printf again inside a later argument, once per record; printf lists read, effect, read of one scalar location (the printf programs of C09's copy-time family); " +
+		Rule: "every format string of length <= L over the symbols % s f v d - 0 3 x, times 15 argument lists, plus a width sweep across the 65536 limit; format literals of 65 535 ... 131 080 bytes; 6 programs whose printf runs the same printf again inside a later argument, once per record; printf lists read, effect, read of one scalar location (the printf programs of C09's copy-time family); " +
 			"a state is a directive-shape class of a format (e.g. %-ws%0wv); non-trivial = classes the model formats successfully with at least one argument list; each case compares exact stdout and outcome with the reference formatter",
 		Plan: func(t fw.Tier) int { return 82 },
 		Bound: func(t fw.Tier) string {
@@ -125,6 +125,11 @@ func init() {
 				c18Sweep(c)
 				// the arguments are rendered as they were when each was evaluated (programs shared with C09)
 				copyTimeRun(c, "printf")
+				// a format literal longer than any 16-bit length: all of it is written, every directive replaced
+				for _, n := range []int{65535, 65536, 70000, 131080} {
+					n := n
+					c.Do(func() any { return map[string]any{"longformat": n} }, func() *fw.Violation { return c18LongFormat(c, n) })
+				}
 				for i, pc := range c18Recursive() {
 					pc, i := pc, i
 					c.Do(func() any { return map[string]any{"recursive": i + 1} }, func() *fw.Violation { return pc.mustCheck(c, "recursive printf") })
@@ -169,6 +174,12 @@ func init() {
 			if v, ok := copyTimeReplay(c, raw); ok {
 				return v
 			}
+			var lf struct {
+				N int `json:"longformat"`
+			}
+			if json.Unmarshal(raw, &lf) == nil && lf.N > 0 {
+				return c18LongFormat(c, lf.N)
+			}
 			var rc struct {
 				Recursive int `json:"recursive"`
 			}
@@ -202,6 +213,25 @@ func init() {
 
 // c18Stream: printf as ONE call site whose format and arguments come from the elements of the input (every format of
 // length <= 4 that the model formats with the arguments ("ab", 1.5), in order and reversed, then one that fails).
+func c18LongFormat(c *fw.Ctx, n int) *fw.Violation {
+	pad := strings.Repeat("=", n-12)
+	f := pad + "[%5s|%-4f]"
+	want, ok := refsem.Printf([]refsem.Value{refsem.Str(f), refsem.Str("ab"), refsem.Num(1.5)}, nil)
+	if !ok {
+		panic("c18: long format refused by the reference")
+	}
+	s := drive.Spec{Program: "BEGIN { printf(\"" + f + "\", \"ab\", 1.5) }", Budget: 100000}
+	v := expect(s, run(c, s), want, drive.KNone, fmt.Sprintf("a format of %d bytes", len(f)))
+	if v != nil {
+		if d, ok := v.Detail.(detail); ok {
+			d.Program = clip(d.Program)
+			v.Detail = d
+		}
+	}
+	c.Traces++
+	return v
+}
+
 // c18Recursive: a printf whose later argument runs the same printf again (recursion through the call site), entered once per
 // record: every call substitutes its own arguments.
 func c18Recursive() []*progCase {
